@@ -146,6 +146,14 @@ func (c *Conversation) receiveDecoded(message messageWithHeader) (plain MessageP
 		return
 	}
 
+	peerKnown := c.theirInstanceTag != 0
+	defer func() {
+		if err != nil && !peerKnown {
+			// a message we refuse does not tell us which instance the peer is
+			c.theirInstanceTag = 0
+		}
+	}()
+
 	var messageHeader, messageBody []byte
 	if messageHeader, messageBody, err = c.parseMessageHeader(message); err != nil {
 		if err == errReceivedMessageForOtherInstance {
